@@ -120,11 +120,10 @@ def step (s : St) (w : List String) : St × String :=
   | ["wput", w1] =>
     match parseRec? w1 with
     | some r =>
-      -- emptyFile: the file is recreated only when nothing is pending
-      let (f0, o0) := if s.wpend = 0 then (([] : Bytes), 0) else (s.wfile, s.woff)
+      -- emptyFile (file emptied only when nothing is pending), then write at the write position
       let enc := fileUtilsEncode 0 r
-      let f1 := writeAt f0 o0 enc
-      ({ s with wfile := f1, woff := o0 + enc.length, wpend := s.wpend + 1 }, s!"ok off={o0 + enc.length} size={f1.length}")
+      let (f1, o1) := putBytes emptyFileBytes (s.wpend == 0) s.wfile s.woff enc
+      ({ s with wfile := f1, woff := o1, wpend := s.wpend + 1 }, s!"ok off={o1} size={f1.length}")
     | none => (s, "bad-op")
   | ["qnew"] => ({ s with q := QState.init }, "ok")
   | "qput" :: ws =>
